@@ -50,7 +50,45 @@ def cases(tier, seed):
     # every field kind x required x default (IR and emitted code must agree with the reference on wire key, required flag and structural kind)
     fm = _fields.collisions(tier) + [c for c in _fields.singles(tier) if c["fields"][0]["kind"] == "string" or c["fields"][0]["name"] == "val"]
     extra += [{"kind": "fieldmodels", "models": fm[i:i + 8]} for i in range(0, len(fm), 8)]
+    # schema-level keyword combinations: own properties x {type written / not written} x composition keyword next to them x additionalProperties x nullable
+    for typed in (True, False):
+        for comp in SHAPE_COMP:
+            for addl in (None, "schema", True):
+                for nullable in (False, True):
+                    extra.append({"kind": "shape", "typed": typed, "comp": comp, "addl": addl, "nullable": nullable})
     return extra + graph_cases(tier, seed)
+
+
+SHAPE_COMP = ["none", "oneOf", "anyOf", "allOf", "allOf+req-before", "allOf+req-after", "oneOf-inline"]
+
+
+def shape_doc(case):
+    R = graphs.R
+    schemas = {"Circle": {"type": "object", "required": ["r"], "properties": {"r": {"type": "number"}}},
+               "Square": {"type": "object", "required": ["s"], "properties": {"s": {"type": "number"}, "t": {"type": "string"}}}}
+    s = {"properties": {"v": {"type": "integer"}, "w": {"type": "string"}}, "required": ["v"]}
+    if case["typed"]:
+        s["type"] = "object"
+    c = case["comp"]
+    if c in ("oneOf", "anyOf"):
+        s[c] = [R("Circle"), R("Square")]
+    elif c == "oneOf-inline":
+        s["oneOf"] = [{"required": ["v"]}, {"required": ["w"]}]   # "at least one of" idiom: constraints only, no new fields
+    elif c == "allOf":
+        s["allOf"] = [R("Circle")]
+    elif c == "allOf+req-before":
+        s["allOf"] = [{"required": ["t"]}, R("Square")]          # requirement-only member listed before the member that brings the property
+    elif c == "allOf+req-after":
+        s["allOf"] = [R("Square"), {"required": ["t", "w"]}]     # requires an inherited and an own (sibling) property
+    if case["addl"] == "schema":
+        s["additionalProperties"] = {"type": "string"}
+    elif case["addl"] is True:
+        s["additionalProperties"] = True
+    if case["nullable"]:
+        s["nullable"] = True
+    schemas["Shape"] = s
+    schemas["Holder"] = {"type": "object", "properties": {"one": R("Shape"), "many": {"type": "array", "items": R("Shape")}}}
+    return sandbox.base_doc(schemas)
 
 
 def graph_cases(tier, seed):
@@ -158,6 +196,9 @@ def run_other(case):
     if case["kind"] == "wide":
         doc = wide_doc(case["edge"])
         label = f"wide|{case['edge']}|170 schemas"
+    elif case["kind"] == "shape":
+        doc = shape_doc(case)
+        label = f"shape|type={'object' if case['typed'] else 'absent'}|{case['comp']}|additionalProperties={case['addl']}|nullable={case['nullable']}"
     else:
         doc = _fields.pack_doc(case["models"])
         label = "fieldmodels|" + ";".join(_fields.describe(m) for m in case["models"])
@@ -213,7 +254,7 @@ def run_other(case):
 def run_case(case):
     import os
 
-    if case.get("kind") in ("wide", "fieldmodels"):
+    if case.get("kind") in ("wide", "fieldmodels", "shape"):
         return run_other(case)
     doc = graphs.doc_of(case)
     cyc = graphs.has_cycle(case["nodes"])
